@@ -10,7 +10,8 @@ def main():
     specs = json.load(open(sys.argv[1]))
     import param
     import numbergen
-    assert param.__file__.startswith('/repo/') and numbergen.__file__.startswith('/repo/'), param.__file__
+    repo = os.environ.get('VERIF_REPO', '/repo').rstrip('/') + '/'
+    assert param.__file__.startswith(repo) and numbergen.__file__.startswith(repo), param.__file__
     from sx import driver, adapt, known
     adapt.apply_param_stubs()
     for spec in specs:
